@@ -8,7 +8,7 @@
 // @weave crates/runtime/src/types/iterator.rs
 #![allow(unused)]
 use super::*;
-use crate::core_lib::iterator::adaptors::{Chain, Enumerate, Reversed, Step, Take, Zip};
+use crate::core_lib::iterator::adaptors::{Chain, Enumerate, Reversed, Take, Zip};
 
 // error-message construction is not the subject
 fn stub_format(_args: std::fmt::Arguments<'_>) -> String {
@@ -186,31 +186,7 @@ fn c13_adaptor_enumerate() {
     kani::cover!(true, "the end of the harness is reached past every obligation");
 }
 
-// @props C13
-// @fns Step::new, Step::next over ByteIterator
-// @bound source of 4 symbolic bytes, step 2 and step 3
-// @kani --no-memory-safety-checks --no-assertion-reach-checks
-// @timeout 1200
-// @mem 10
-// @tier thorough
-#[kani::proof]
-#[kani::unwind(3)]
-fn c13_adaptor_step() {
-    let a: [u8; 4] = kani::any();
-    let mut st = match Step::new(src(&a), 2) {
-        Ok(s) => s,
-        Err(e) => {
-            std::mem::forget(e);
-            return;
-        }
-    };
-    assert!(num(st.next()) == Some(a[0] as i64), "C13.step: first element");
-    assert!(num(st.next()) == Some(a[2] as i64), "C13.step: every second element");
-    assert!(num(st.next()).is_none(), "C13.step: end");
-    std::mem::forget(st);
-    kani::cover!(true, "the end of the harness is reached past every obligation");
-}
-
+// DROPPED: Step (Step::next pulls and drops `step - 1` outputs per call): 4 symbolic bytes, step 2, three pulls - no result in 1200 s.
 // DROPPED: Skip (Skip::next goes through Iterator::nth on the KIterator, i.e. advance_by with a drop of every skipped
 // output): a harness with 3 symbolic bytes, skip 1 and two pulls did not finish in 1800 s and reached 32 GB.
 
